@@ -188,7 +188,7 @@ def g_c09(d: Draw) -> dict:
 class Prop:
     def __init__(self, pid: str, gen_fn: Callable[[Draw], dict], clauses: Dict[str, str], *,
                  level: str = "exploration", strategies: Optional[List[str]] = None, n_sched: int = 3,
-                 quick: int = 4000, thorough: int = 60000, watchdog: bool = True,
+                 quick: int = 4000, thorough: int = 150000, watchdog: bool = True,
                  nontrivial: str = "concurrent", technique: str = "", fault_enum: bool = False,
                  hashseeds: Optional[List[str]] = None) -> None:
         self.pid, self.gen, self.clauses, self.level = pid, gen_fn, clauses, level
@@ -339,7 +339,7 @@ def g_c07(d: Draw) -> dict:
 
 P_C07D = gen.profile(**{**P_C07, "p_debug": 0.3, "w_nested": 0})
 reg(Prop("C07", g_c07, {"cprio_table": "C07.a", "order_mc1": "C07.d", "raise": "C07.a"}, nontrivial="multi", n_sched=2,
-         quick=3000, thorough=40000, hashseeds=["0", "1", "2", "3"]))
+         quick=3000, thorough=100000, hashseeds=["0", "1", "2", "3"]))
 
 
 # ----------------------------------------------------------------------------- selection / debug / setup family
@@ -631,7 +631,7 @@ def g_c16(d: Draw) -> dict:
 
 reg(Prop("C16", g_c16, {"value": "C16.a", "build_table": "C16.c", "raise": "C16.d", "wrongexc": "C16.d", "noraise": "C16.d",
                         "args": "C16.a", "count_extra": "C16.a", "count_missing": "C16.a"},
-         nontrivial="concurrent", n_sched=3, quick=2500, thorough=40000))
+         nontrivial="concurrent", n_sched=3, quick=2500, thorough=100000))
 
 
 # ----------------------------------------------------------------------------- C17 async flavour
@@ -665,9 +665,13 @@ def g_c17(d: Draw) -> dict:
         scn["tick_nodes"] = "all"
     if d.bool(0.2):
         op["cancel"] = dict(idx=d.int(0, len(calls) - 1), at=d.int(0, 6))
+    elif d.bool(0.25):
+        calls_idx = [i for i, s_ in enumerate(dg["stmts"]) if s_["k"] == "call"]
+        if calls_idx:
+            scn["faults"] = [dict(op=[0, 0, d.int(0, len(calls) - 1)], path=[["main", d.pick(calls_idx)]], when=d.pick(["late", "early"]), kind="exc")]
     return scn
 
 
 reg(Prop("C17", g_c17, {"value": "C17.a", "count_missing": "C17.a", "count_extra": "C17.a", "args": "C17.b", "state_leak": "C17.a",
-                        "raise": "C17.a", "loop_blocked": "C17.c", "deadlock": "C17.c", "livelock": "C17.c", "loop_runs_node": "C17.c"},
-         nontrivial="concurrent", n_sched=3, quick=2500, thorough=40000, watchdog=True))
+                        "raise": "C17.a", "loop_blocked": "C17.c", "deadlock": "C17.c", "livelock": "C17.c", "loop_runs_node": "C17.c", "noraise": "C17.b", "wrongexc": "C17.b"},
+         nontrivial="concurrent", n_sched=3, quick=2500, thorough=100000, watchdog=True))
